@@ -374,6 +374,12 @@ def c16() -> int:
     # the second station-search strategy (its ranking replays the sessions of the plugged and queued vehicles) beside the controller:
     # v0 (nearly empty) is sent to s0 by the manager and plugs in, a vehicle the controller sends there queues, and v2, whose idle
     # draw makes it a charge candidate a few steps later, ranks busy s0 against empty s1 in the same ring of search cells
+    # two nearly empty vehicles of different fleets searching for a plug from one search cell; what each may use lies at a different
+    # ring depth of the search (anything the search remembers between calls changes what the next call returns)
+    # the charging queue with vehicles that joined in the same step and fewer plugs released than tied vehicles
+    gfsx(c, fsx, ("hivemc.w_imm", "make_fifo", {}), ("hivemc.bundles", "c16", {}), K=3, H=6 if quick else 9)
+    for swap in (False, True):
+        gfsx(c, fsx, ("hivemc.w_imm", "make_seek", {"swap": swap}), ("hivemc.bundles", "c16", {}), K=2, H=5 if quick else 8, needs=["c16:carried_controller_steps"])
     gfsx(c, fsx, ("hivemc.w_imm", "make_res", {"variant": "core", "auto": "stc", "mechs": ("thirsty", "thirsty", "thirsty"), "v2_energy": 0.23, "v2_site": "N3", "s1_site": "M2", "pairs": False, "name": "W-res/imm/stc"}),
         ("hivemc.bundles", "c16", {}), K=2, H=5 if quick else 8)
     return c.finish()
@@ -403,6 +409,8 @@ def c18() -> int:
         fsx(c, FIFO + ({"human": k, "home_at_station": True},), ("hivemc.bundles", "c18", {}), K=3 if quick else 5, H=7 if quick else 10, needs=needs[:1])
     # a vehicle that is still full when it arrives at the busy station; an initial layout at time 0 with a vehicle queued since t = 0
     fsx(c, FIFO + ({"full_v1": True},), ("hivemc.bundles", "c18", {}), K=4 if quick else 5, H=9 if quick else 11, needs=needs[:1])
+    # a vehicle that joins the queue at 85 % (above the level at which its own driver unplugs it again, below full)
+    fsx(c, FIFO + ({"high_soc": True},), ("hivemc.bundles", "c18", {}), K=4 if quick else 5, H=9 if quick else 11, needs=needs[:1])
     fsx(c, FIFO + ({"t0": True},), ("hivemc.bundles", "c18", {}), K=3 if quick else 5, H=9 if quick else 11,
         needs=needs[:1] + ["default:ChargingStation>Idle"])
     bisim(c, FIFO + ({"pairs": False},), K=2, H=4 if quick else 5)
